@@ -4,7 +4,8 @@
   selftest/preserving/*.diff                    -> every owning check must stay silent (exit 0)
   --cross: every mutant/seed applied on top of every preserving refactoring of the same file (where the patches compose) must still fire
   --combos N: N random combinations of up to 8 preserving variants applied together, all 20 checks must stay silent
-usage: tools/selftest.py [-j N] [--cross] [--combos N] [pattern]"""
+  --firing: only the cases that must fire (mutants and seeds)
+usage: tools/selftest.py [-j N] [--cross] [--firing] [--combos N] [pattern]"""
 import glob, json, os, re, subprocess, sys, tempfile, shutil
 from concurrent.futures import ThreadPoolExecutor
 
@@ -25,6 +26,13 @@ def cases(pattern):
             # refactorings written by independent sub-agents, one library area each: the checks whose rules read that area
             area = {"1": ["C01", "C03", "C05", "C16", "C17"], "2": ["C03", "C07", "C09", "C10"], "3": ["C02", "C04", "C06", "C07", "C08", "C20"], "4": ["C02", "C03", "C04", "C14", "C18"],
                     "5": ["C11", "C12", "C13", "C14", "C15", "C18"], "6": ["C04", "C11", "C12", "C13", "C18"], "7": ["C04", "C08", "C10", "C20"], "8": ["C01", "C05", "C14", "C16", "C19"]}[name[5]]
+            out.append((name, p, area, False))
+            continue
+        if name.startswith("ref_V"):
+            # fifth round (areas chosen after seeding waves 5 and 6: where the newest rules live)
+            area = {"1": ["C01", "C02", "C03", "C05", "C06", "C16", "C17"], "2": ["C01", "C02", "C03", "C06", "C07", "C20"], "3": ["C02", "C04", "C06", "C07", "C08", "C11", "C20"],
+                    "4": ["C03", "C07", "C09", "C10"], "5": ["C02", "C04", "C13", "C14", "C18"], "6": ["C03", "C04", "C10", "C14", "C15", "C18"],
+                    "7": ["C04", "C11", "C12", "C13", "C18", "C19"], "8": ["C02", "C11", "C12", "C13", "C18", "C19"]}[name[5]]
             out.append((name, p, area, False))
             continue
         if name.startswith("ref_S"):
@@ -119,10 +127,15 @@ def main():
     cross = bool(args and args[0] == "--cross")
     if cross:
         args = args[1:]
+    firing_only = bool(args and args[0] == "--firing")
+    if firing_only:
+        args = args[1:]
     if args and args[0] == "--combos":
         cs = combo_cases(int(args[1]) if len(args) > 1 else 30)
     else:
         cs = (cross_cases if cross else cases)(args[0] if args else "")
+        if firing_only:
+            cs = [c for c in cs if c[3]]
     base = tempfile.mkdtemp(prefix="verif_selftest_")
     wts = []
     try:
